@@ -68,7 +68,10 @@ pub fn install_panic_hook() {
         if let Ok(mut g) = LAST_PANIC_ANYWHERE.try_lock() {
             let line = format!("{} at {}", msg, loc);
             if g.len() > 4000 {
-                let cut = g.len() - 2000;
+                let mut cut = g.len() - 2000;
+                while !g.is_char_boundary(cut) {
+                    cut += 1;
+                }
                 *g = g[cut..].to_string();
             }
             g.push_str(" || ");
